@@ -482,6 +482,71 @@ pub fn gen_c10(run: &mut crate::Run, seed: u64, thorough: bool) {
             run.op(&format!("abi.dec {}", hx(&e)), "decode-invalid-utf8-name");
         }
     }
+    // VALID UTF-8 that a careless validity test might take for a sign of damage: the replacement character itself, NUL, a byte
+    // order mark, the code points around the surrogate gap, the last code point, a four-byte sequence, combining marks
+    for (k, good) in ["\u{FFFD}", "Wrapped \u{FFFD} Token", "\u{0}", "a\u{0}b", "\u{FEFF}T", "\u{D7FF}\u{E000}", "\u{10FFFF}", "\u{1F680}", "e\u{301}\u{301}", "\u{7F}\u{80}\u{7FF}\u{800}\u{FFFF}\u{10000}"].iter().enumerate() {
+        let g = good.as_bytes().to_vec();
+        let msgs = vec![
+            M::D { tid: [2; 32], name: g.clone(), symbol: b"S".to_vec(), decimals: 7, minter: None },
+            M::D { tid: [2; 32], name: b"N".to_vec(), symbol: g.clone(), decimals: 7, minter: None },
+        ];
+        for m in msgs {
+            let o = run.op(&format!("abi.enc {}", m.tok()), &format!("encode-unusual-valid-utf8-{k}"));
+            if let Some(hexs) = o.strip_prefix("ok x") {
+                run.op(&format!("abi.dec {hexs}"), &format!("roundtrip-unusual-valid-utf8-{k}"));
+            }
+        }
+        let t = M::T { tid: [1; 32], src: vec![1], dst: vec![2], amount: 5, data: None };
+        for h in [HM::R(g.clone(), t.clone()), HM::S(g.clone(), t.clone())] {
+            let o = run.op(&format!("abi.enc_hub {}", h.tok()), &format!("encode-unusual-valid-utf8-chain-{k}"));
+            if let Some(hexs) = o.strip_prefix("ok x") {
+                run.op(&format!("abi.dec_hub {hexs}"), &format!("roundtrip-unusual-valid-utf8-chain-{k}"));
+            }
+        }
+    }
+    // the uint256 amount word limb by limb: every combination of {0, 1, 2^63, all ones, one shared random value} in the two
+    // upper 64-bit limbs, over a low half with bit 127 clear / set — only (0, 0, low < 2^127) is an amount
+    {
+        let shared = rng.next() | 1;
+        let limb_vals = [0u64, 1, 1 << 63, u64::MAX, shared];
+        let t = M::T { tid: [9; 32], src: vec![1], dst: vec![2], amount: 1000, data: None };
+        let plain = t.sdk(&env).abi_encode(&env).unwrap().to_alloc_vec();
+        let hub = HM::R(b"ethereum".to_vec(), t.clone()).sdk(&env).abi_encode(&env).unwrap().to_alloc_vec();
+        let hub_inner = 96 + 32 + 32 + 32;
+        for &l3 in &limb_vals {
+            for &l2 in &limb_vals {
+                for hi127 in [false, true] {
+                    if l3 == 0 && l2 == 0 && !hi127 {
+                        continue;
+                    }
+                    let mut e = plain.clone();
+                    e[128..136].copy_from_slice(&l3.to_be_bytes());
+                    e[136..144].copy_from_slice(&l2.to_be_bytes());
+                    if hi127 {
+                        e[144] |= 0x80;
+                    }
+                    let nm = |v: u64| if v == 0 { "0" } else if v == 1 { "1" } else if v == 1 << 63 { "2^63" } else if v == u64::MAX { "ones" } else { "r" };
+                    let cls = format!("amount-limbs-{}-{}-{}", nm(l3), nm(l2), if hi127 { "bit127" } else { "low" });
+                    run.op(&format!("abi.dec {}", hx(&e)), &cls);
+                    let mut e = hub.clone();
+                    e[hub_inner + 128..hub_inner + 136].copy_from_slice(&l3.to_be_bytes());
+                    e[hub_inner + 136..hub_inner + 144].copy_from_slice(&l2.to_be_bytes());
+                    if hi127 {
+                        e[hub_inner + 144] |= 0x80;
+                    }
+                    run.op(&format!("abi.dec_hub {}", hx(&e)), &format!("{cls}-hub"));
+                }
+            }
+        }
+        // and the uint8 decimals word of a deploy message byte by byte: any non-zero byte above the lowest makes it no uint8
+        let d = M::D { tid: [9; 32], name: b"N".to_vec(), symbol: b"S".to_vec(), decimals: 18, minter: None };
+        let plain = d.sdk(&env).abi_encode(&env).unwrap().to_alloc_vec();
+        for i in 0..31usize {
+            let mut e = plain.clone();
+            e[128 + i] = 1;
+            run.op(&format!("abi.dec {}", hx(&e)), &format!("decimals-word-byte{i}"));
+        }
+    }
     // random byte strings
     let nrand = if thorough { 20000 } else { 600 };
     for _ in 0..nrand {
